@@ -6,24 +6,24 @@ import Jap.Core.ResolverMod
 
 namespace Jap.Resolver
 
-theorem linkCms_congr {g g' : Nat → Module} {miss : Nat} : ∀ (cs : List Callable) (j0 : Nat),
-    (∀ j, j < cs.length → g (j0 + j) = g' (j0 + j)) → linkCms g miss j0 cs = linkCms g' miss j0 cs
+theorem linkCms_congr {g g' : Nat → Module} {L : Module → Nat → Nat} : ∀ (cs : List Callable) (j0 : Nat),
+    (∀ j, j < cs.length → g (j0 + j) = g' (j0 + j)) → linkCms L g j0 cs = linkCms L g' j0 cs
   | [], _, _ => rfl
   | c :: cs, j0, h => by
     have h0 : g j0 = g' j0 := by simpa using h 0 (by simp)
-    have ht := linkCms_congr (g := g) (g' := g') (miss := miss) cs (j0 + 1) (fun j hj => by
+    have ht := linkCms_congr (g := g) (g' := g') (L := L) cs (j0 + 1) (fun j hj => by
       have := h (j + 1) (by simp only [List.length_cons]; omega)
       rw [show j0 + 1 + j = j0 + (j + 1) by omega]; exact this)
     simp only [linkCms, h0, ht]
 
-theorem linkEntry_congr {f f' : Module} {g g' : Nat → Module} {miss : Nat} (e : Entry)
+theorem linkEntry_congr {f f' : Module} {g g' : Nat → Module} {L : Module → Nat → Nat} (e : Entry)
     (hf : e.hasOwnBody = true → f = f')
     (hg : ∀ kk j, e = .cls kk → j < kk.cmeths.length → g j = g' j) :
-    linkEntry f g miss e = linkEntry f' g' miss e := by
+    linkEntry L f g e = linkEntry L f' g' e := by
   cases e with
   | fn c => simp only [linkEntry, hf rfl]
   | cls k =>
-    have hcm : linkCms g miss 0 k.cmeths = linkCms g' miss 0 k.cmeths :=
+    have hcm : linkCms L g 0 k.cmeths = linkCms L g' 0 k.cmeths :=
       linkCms_congr k.cmeths 0 (fun j hj => by simpa using hg k j rfl hj)
     by_cases hb : (Entry.cls k).hasOwnBody = true
     · simp only [linkEntry, hf hb, hcm]
@@ -37,16 +37,16 @@ theorem linkEntry_congr {f f' : Module} {g g' : Nat → Module} {miss : Nat} (e 
         | cons c cs => exact absurd (by simp [Entry.hasOwnBody, h]) hb
       simp only [linkEntry, hi, hm, hcm, Option.map_none, List.map_nil]
 
-theorem linkWith_congr {f f' : Nat → Module} {g g' : Nat → Nat → Module} {miss : Nat} : ∀ (es : List Entry) (i : Nat),
+theorem linkWith_congr {f f' : Nat → Module} {g g' : Nat → Nat → Module} {L : Module → Nat → Nat} : ∀ (es : List Entry) (i : Nat),
     (∀ k e, es[k]? = some e → e.hasOwnBody = true → f (i + k) = f' (i + k)) →
     (∀ k kk j, es[k]? = some (.cls kk) → j < kk.cmeths.length → g (i + k) j = g' (i + k) j) →
-    linkWith f g miss i es = linkWith f' g' miss i es
+    linkWith L f g i es = linkWith L f' g' i es
   | [], _, _, _ => rfl
   | e :: es, i, hf, hg => by
-    have he := linkEntry_congr (f := f i) (f' := f' i) (g := g i) (g' := g' i) (miss := miss) e
+    have he := linkEntry_congr (f := f i) (f' := f' i) (g := g i) (g' := g' i) (L := L) e
       (fun hb => by simpa using hf 0 e (by simp) hb)
       (fun kk j hk hj => by simpa using hg 0 kk j (by simp [hk]) hj)
-    have ht := linkWith_congr (f := f) (f' := f') (g := g) (g' := g') (miss := miss) es (i + 1)
+    have ht := linkWith_congr (f := f) (f' := f') (g := g) (g' := g') (L := L) es (i + 1)
       (fun k e' hk hb => by
         have := hf (k + 1) e' (by simpa using hk) hb
         rw [show i + 1 + k = i + (k + 1) by omega]; exact this)
@@ -83,13 +83,19 @@ theorem usedFrom_cm {MP : MProg} {m : Nat} : ∀ (es : List Entry) (i k : Nat) (
       (by rw [show i + 1 + k = i + (k + 1) by omega]; exact hm)
     simp [usedFrom, this]
 
-/-- Two source programs with the same text, module assignment and classmethod definers whose global
-    tables agree on every module that holds program text link to the same program. -/
-theorem link_congr (MP MP' : MProg) (hs : MP'.src = MP.src) (hm : MP'.modOf = MP.modOf) (hc : MP'.cmDef = MP.cmDef)
-    (h : ∀ m, MP.usesModule m = true → MP'.moduleAt m = MP.moduleAt m) : link MP' = link MP := by
-  unfold link
-  rw [hs]
-  congr 1
+theorem lookup_nolocal {MP : MProg} (h : MP.localImp = []) (stat : Bool) (miss : Nat) :
+    MP.lookup stat miss = fun M s => lookupSym M miss s := by
+  funext M s
+  simp [MProg.lookup, h]
+
+/-- Two source programs (without imports inside bodies) with the same text, module assignment and classmethod
+    definers whose global tables agree on every module that holds program text link to the same entries. -/
+theorem linkEntries_congr (MP MP' : MProg) (hs : MP'.src = MP.src) (hm : MP'.modOf = MP.modOf) (hc : MP'.cmDef = MP.cmDef)
+    (hl : MP.localImp = []) (hl' : MP'.localImp = [])
+    (h : ∀ m, MP.usesModule m = true → MP'.moduleAt m = MP.moduleAt m) (stat stat' : Bool) :
+    linkEntries MP' stat' = linkEntries MP stat := by
+  unfold linkEntries
+  rw [hs, lookup_nolocal hl, lookup_nolocal hl']
   apply linkWith_congr
   · intro k e hk hb
     simp only [MProg.moduleOfEntry, hm]
@@ -98,16 +104,34 @@ theorem link_congr (MP MP' : MProg) (hs : MP'.src = MP.src) (hm : MP'.modOf = MP
     simp only [MProg.moduleOfEntry, MProg.definer, hm, hc]
     exact h _ (usedFrom_cm MP.src.entries 0 k kk j hk hj rfl)
 
-theorem linkWith_length {f : Nat → Module} {g : Nat → Nat → Module} {miss : Nat} : ∀ (es : List Entry) (i : Nat),
-    (linkWith f g miss i es).length = es.length
+theorem link_congr (MP MP' : MProg) (hs : MP'.src = MP.src) (hm : MP'.modOf = MP.modOf) (hc : MP'.cmDef = MP.cmDef)
+    (hl : MP.localImp = []) (hl' : MP'.localImp = [])
+    (h : ∀ m, MP.usesModule m = true → MP'.moduleAt m = MP.moduleAt m) : linkD MP' = linkD MP := by
+  unfold linkD
+  rw [linkEntries_congr MP MP' hs hm hc hl hl' h false false]
+
+/-- without imports inside bodies both lookups coincide -/
+theorem nolocal_noShadow {MP : MProg} (hl : MP.localImp = []) : noShadowedLocalImport MP = true := by
+  simp [noShadowedLocalImport, linkEntries, lookup_nolocal hl]
+
+/-- outside the two findings the resolver reads the program Python runs -/
+theorem linkS_eq_linkD {MP : MProg} (h1 : noForeignTwoArgSuper MP = true) (h2 : noShadowedLocalImport MP = true) :
+    linkS MP = linkD MP := by
+  simp only [noShadowedLocalImport, decide_eq_true_eq] at h2
+  simp only [noForeignTwoArgSuper, linkS, List.isEmpty_iff] at h1
+  unfold linkS linkD
+  rw [h1, h2]
+
+theorem linkWith_length {L : Module → Nat → Nat} {f : Nat → Module} {g : Nat → Nat → Module} : ∀ (es : List Entry) (i : Nat),
+    (linkWith L f g i es).length = es.length
   | [], _ => rfl
   | _ :: es, i => by simp [linkWith, linkWith_length es (i + 1)]
 
 /-- linking keeps the entry table's shape: the same queries are valid -/
-theorem link_length (MP : MProg) : (link MP).entries.length = MP.src.entries.length := by
-  simp [link, linkWith_length]
+theorem link_length (MP : MProg) : (linkD MP).entries.length = MP.src.entries.length := by
+  simp [linkD, linkEntries, linkWith_length]
 
-theorem link_valid (MP : MProg) (c : CId) : c.valid (link MP) = c.valid MP.src := by
+theorem link_valid (MP : MProg) (c : CId) : c.valid (linkD MP) = c.valid MP.src := by
   cases c <;> simp [CId.valid, link_length]
 
 end Jap.Resolver
